@@ -648,6 +648,19 @@ def _b_enumerate(it, args, kw):
     return list(enumerate(x, start))
 
 
+def _b_range(it, args, kw):
+    if any(isinstance(a, SInt) for a in args):
+        if len(args) != 1:
+            raise Unsupported("range(start, stop) with symbolic bounds")
+        n = zint(args[0])
+        ok, _ = ctx().valid(n >= 0)
+        if not ok:
+            raise Unsupported("range of a possibly negative symbolic length")
+        j = z3.Int(f"jrange({z3.simplify(n)})")
+        return [Seg(("range", str(z3.simplify(n))), SInt(n), j, [SInt(j)])]
+    return it.native(range, *args)
+
+
 def _b_reversed(it, args, kw):
     (x,) = args
     if isinstance(x, list):
@@ -665,8 +678,8 @@ def _b_zip(it, args, kw):
         if isinstance(a, IGen):
             a = it.drain(a)
         lists.append(a)
-    if all(isinstance(a, (list, tuple)) for a in lists) and any(has_seg(a) for a in lists):
-        return ZipObj([list(a) for a in lists])
+    if all(isinstance(a, (list, tuple, RevObj)) for a in lists) and any(isinstance(a, RevObj) or has_seg(a) for a in lists):
+        return ZipObj([a if isinstance(a, RevObj) else list(a) for a in lists])
     if contains_symbolic(lists, 1) and not all(isinstance(a, (list, tuple)) for a in lists):
         raise Unsupported("zip of symbolic iterables")
     return list(zip(*lists))
@@ -970,6 +983,7 @@ BUILTIN_HANDLERS = {
     len: _b_len,
     enumerate: _b_enumerate,
     reversed: _b_reversed,
+    range: _b_range,
     zip: _b_zip,
     itertools.chain: _b_chain,
     hasattr: _b_hasattr,
